@@ -3009,6 +3009,159 @@ theorem ordered_row_roundtrip (d : Desc) (fvs : List (Field × Val)) (db : List 
   rw [deRowOrdered_spec d db cells htc hlen, hfields,
     ordRowExpected_roundtrip d.skipNameChecks fvs hwt db cells hser]
 
+/-! ### the generated `deserialize` on input it was never type-checked against -/
+
+private theorem drDeOrd_no_panic (sn : Bool) (fields : List Field) : ∀ (db : List Col) (cells : List Cell),
+    drTcOrd sn (fields.filter (fun f => !f.skip)) db = .ok () →
+    db.length = (fields.filter (fun f => !f.skip)).length →
+    ∀ x, drDeOrd sn fields (rowItems db cells) = .error x → x ≠ .panic := by
+  induction fields with
+  | nil => intro db cells _ _ x h; cases h
+  | cons f fs ih =>
+    intro db cells htc hlen x h
+    unfold drDeOrd at h
+    by_cases hs : f.skip = true
+    · rw [List.filter_cons] at htc hlen
+      simp only [hs, Bool.not_true, Bool.false_eq_true, if_false] at htc hlen
+      simp only [hs, if_true] at h
+      cases hr : drDeOrd sn fs (rowItems db cells) with
+      | error y => rw [hr] at h; cases h; exact ih db cells htc hlen _ hr
+      | ok vs => rw [hr] at h; cases h
+    · simp only [Bool.not_eq_true] at hs
+      rw [List.filter_cons] at htc hlen
+      simp only [hs, Bool.not_false, if_true] at htc hlen
+      simp only [hs, Bool.false_eq_true, if_false] at h
+      cases db with
+      | nil => simp at hlen
+      | cons c cs =>
+        cases cells with
+        | nil => simp only [rowItems] at h; cases h; simp
+        | cons v vs =>
+          unfold drTcOrd at htc
+          simp only [rowItems] at h
+          by_cases hn : (!sn && c.name != f.col) = true
+          · simp [hn] at htc
+          · simp only [Bool.not_eq_true] at hn
+            simp only [hn, Bool.false_eq_true, if_false] at htc h
+            split at htc
+            · cases htc
+            · cases hd : deValD f v with
+              | none => rw [hd] at h; cases h; simp
+              | some w =>
+                rw [hd] at h
+                simp only [] at h
+                cases hr : drDeOrd sn fs (rowItems cs vs) with
+                | error y => rw [hr] at h; cases h; exact ih cs vs htc (by simpa using hlen) _ hr
+                | ok ws => rw [hr] at h; cases h
+
+/-- `type_check` ok ⇒ the generated `deserialize` never reaches one of its `panic!` / `unreachable!` / `assert!` /
+`.expect` — for every struct descriptor, both flavors, UDT and row derives, and ANY cells (nulls, short lists) -/
+theorem typecheck_ok_never_panics (d : Desc) (db : List Col) (cells : List Cell) :
+    (d.flavor = .byName → ValidNames (slots d.fields) → tcValueByName d db = .ok () →
+      valueDecodePanics d db cells = false) ∧
+    (d.flavor = .ordered → tcValueOrdered d db = .ok () → valueDecodePanics d db cells = false) ∧
+    (d.flavor = .byName → RowFields d.fields → ValidNames (slots d.fields) → tcRowByName d db = .ok () →
+      rowDecodePanics d db cells = false) ∧
+    (d.flavor = .ordered → tcRowOrdered d db = .ok () → rowDecodePanics d db cells = false) := by
+  refine ⟨?_, ?_, ?_, ?_⟩
+  · intro hfl hv htc
+    unfold valueDecodePanics deValueUnchecked
+    rw [hfl]
+    simp only []
+    cases h : deValueByName d db cells with
+    | ok vs => rfl
+    | error x =>
+      have hd : deserValue d db cells = .error x := by unfold deserValue; rw [hfl]; simp only [htc, h]
+      have := (deserValueByName_no_panic d db cells hfl hv x hd).1
+      cases x <;> first | rfl | exact absurd rfl this
+  · intro hfl htc
+    unfold valueDecodePanics deValueUnchecked
+    rw [hfl]
+    simp only [dvDeOrd_spec d db cells htc]
+    cases ordUdtExpected d.skipNameChecks d.fields (udtItems db cells) <;> rfl
+  · intro hfl hr hv htc
+    unfold rowDecodePanics deRowUnchecked
+    rw [hfl]
+    simp only []
+    cases h : deRowByName d db cells with
+    | ok vs => rfl
+    | error x =>
+      have hd : deserRow d db cells = .error x := by unfold deserRow; rw [hfl]; simp only [htc, h]
+      have := deserRowByName_no_panic d db cells hfl hr hv
+      rw [hd] at this
+      cases x <;> first | rfl | exact absurd rfl this
+  · intro hfl htc
+    unfold rowDecodePanics deRowUnchecked
+    rw [hfl]
+    simp only []
+    obtain ⟨h1, _⟩ := (tcRowOrdered_iff d db).mp htc
+    have hwalk : drTcOrd d.skipNameChecks (d.fields.filter (fun f => !f.skip)) db = .ok () := by
+      unfold tcRowOrdered rowRequiredCount at htc
+      have hb : (db.length != (d.fields.filter (fun f => !f.skip)).length) = false := by simp [h1]
+      rw [hb] at htc
+      simpa using htc
+    cases h : deRowOrdered d db cells with
+    | ok vs => rfl
+    | error x =>
+      have := drDeOrd_no_panic d.skipNameChecks d.fields db cells hwalk h1 x h
+      cases x <;> first | rfl | exact absurd rfl this
+
+/-- WHICH rows make the generated row deserializers panic when the type check was skipped: (1) by name, a column the
+struct has no field for (`unreachable!("… Unknown column name")`); (2) by name, no columns at all while a field is
+not skipped (`column … missing in DB row`); (3) ordered, names checked, the first column not named like the first
+non-skipped field ("field-column name mismatch"); (4) ordered, no column left for a non-skipped field (`.expect`) -/
+theorem unchecked_row_panics (d : Desc) :
+    (∀ c cs x xs, d.flavor = .byName → fieldFor (slots d.fields) c.name = none →
+      rowDecodePanics d (c :: cs) (x :: xs) = true) ∧
+    (∀ f fs cells, d.flavor = .byName → d.fields = f :: fs → f.skip = false →
+      rowDecodePanics d [] cells = true) ∧
+    (∀ f fs c cs x xs, d.flavor = .ordered → d.skipNameChecks = false → d.fields = f :: fs → f.skip = false →
+      c.name ≠ f.col → rowDecodePanics d (c :: cs) (x :: xs) = true) ∧
+    (∀ f fs cells, d.flavor = .ordered → d.fields = f :: fs → f.skip = false →
+      rowDecodePanics d [] cells = true) := by
+  refine ⟨?_, ?_, ?_, ?_⟩
+  · intro c cs x xs hfl hf
+    have hl : lookupE c.name (tcEntries d.fields) = none := by
+      have := congrFun (show fv (tcEntries d.fields) = fieldFor (slots d.fields) from by
+        funext n; rw [tcEntries_eq, fv_entries]) c.name
+      rw [hf] at this
+      unfold fv at this
+      cases hl : lookupE c.name (tcEntries d.fields) with
+      | none => rfl
+      | some e => rw [hl] at this; cases this
+    unfold rowDecodePanics deRowUnchecked deRowByName
+    rw [hfl]
+    simp only [rowItems]
+    unfold drDeLoop
+    simp [hl]
+  · intro f fs cells hfl hfields hs
+    unfold rowDecodePanics deRowUnchecked deRowByName
+    rw [hfl, hfields]
+    simp only [rowItems, drDeLoop]
+    unfold drFinalize
+    simp only [hs, Bool.false_eq_true, if_false]
+    have hent : lookupE f.col (tcEntries (f :: fs)) = some ⟨f, none, false⟩ := by
+      unfold tcEntries
+      rw [List.filter_cons]
+      simp only [hs, Bool.not_false, if_true, List.map_cons]
+      rw [lookupE_cons]
+      simp
+    rw [hent]
+    simp
+  · intro f fs c cs x xs hfl hsn hfields hs hne
+    unfold rowDecodePanics deRowUnchecked deRowOrdered
+    rw [hfl, hfields, hsn]
+    simp only [rowItems]
+    unfold drDeOrd
+    have hb : (c.name != f.col) = true := by simp [hne]
+    simp [hs, hb]
+  · intro f fs cells hfl hfields hs
+    unfold rowDecodePanics deRowUnchecked deRowOrdered
+    rw [hfl, hfields]
+    simp only [rowItems]
+    unfold drDeOrd
+    simp [hs]
+
 /-! ### `#[scylla(flatten)]`, ordered flavor: serializing the nested struct = serializing its flattened field list -/
 
 mutual
